@@ -1,6 +1,7 @@
 """C09 — program-tree bookkeeping (cached durations, recorded positions, parent pointers) stays coherent under every
 sequence of edits; Loop.__eq__ is decided by structure / counts / waveforms / measurements only."""
 import fractions
+import gc
 import itertools
 import warnings
 
@@ -118,7 +119,7 @@ def rnd_optz(rng, lo=-4, hi=5):
 
 OPW = [('append', 10), ('setint', 6), ('setslice', 9), ('setwf', 5), ('setrep', 8), ('setrdef', 4), ('unroll', 6),
        ('unrollc', 5), ('split', 6), ('encaps', 5), ('merge', 5), ('cleanup', 4), ('reverse', 6), ('copyappend', 5),
-       ('qdur', 14), ('qbody', 6), ('eq', 3), ('eqcopy', 5), ('setrepf', 3), ('bad', 4)]
+       ('qdur', 14), ('qbody', 6), ('eq', 3), ('eqcopy', 5), ('setrepf', 3), ('bad', 4), ('addmeas', 5)]
 
 
 def rnd_op(rng, allow_roll):
@@ -155,6 +156,8 @@ def rnd_op(rng, allow_roll):
         op.update(zf=rng.choice(FLOAT_COUNTS))
     elif k == 'bad':
         op.update(which=rng.choice(sorted(BAD)))
+    elif k == 'addmeas':      # round 6: add_measurements is an operation of the history alphabet (OAddMeas)
+        op.update(ms=rnd_meas(rng) or [[0, '0', '1']])
     return op
 
 
@@ -254,6 +257,7 @@ ALPHABET = [
     {'op': 'reverse', 'sel': []},
     {'op': 'roll', 'sel': [], 'mq': 2, 'q': 1, 'sr': '1'},
     {'op': 'setwf', 'sel': [0, 0], 'w': ['c', '12', 2]},
+    {'op': 'addmeas', 'sel': [1], 'ms': [[0, '0', '1'], [1, '1/2', '1/2']]},
 ]
 
 
@@ -989,6 +993,15 @@ def apply_op(env, root, op):
         elif k == 'bad':
             rop['exp'] = BAD[op['which']] or ('KIndex' if len(x) == 0 else 'KType')
             do_bad(env, x, op['which'])
+        elif k == 'addmeas':
+            # _merge_single_child hands the child's list OBJECT to the parent: a list shared by two Loop objects is not
+            # modelled (C02's business) - the call is skipped then (recorded as a nop)
+            lst = x._measurements
+            if lst is not None and sum(1 for o in gc.get_referrers(lst) if isinstance(o, q['Loop'])) > 1:
+                rop.clear()
+                rop.update(op='nop', path=[])
+            else:
+                x.add_measurements(env.meas(op['ms']))
         elif k == 'unroll':
             x.unroll()
         elif k == 'unrollc':
@@ -1333,6 +1346,8 @@ def g_op(o):
         return '(OSetRepCountQ %s %s)' % (p, gQ(F(o['zq'])))
     if k == 'bad':
         return '(OReject %s %s)' % (p, 'Ex' + o['exp'][1:])
+    if k == 'addmeas':
+        return '(OAddMeas %s %s)' % (p, glist(g_mw, o['ms']))
     if k == 'unroll':
         return '(OUnroll %s)' % p
     if k == 'unrollc':
